@@ -1,6 +1,7 @@
 """pyvc.solve -- discharge verification conditions with z3, falling back to cvc5."""
 import os
 import re
+import shutil
 import subprocess
 import tempfile
 import time
@@ -74,6 +75,54 @@ _REWRITES = [
 ]
 
 
+Z3_BIN = shutil.which("z3-new") or "/usr/local/bin/z3-new"
+
+
+def run_z3cli(smt2, timeout_s):
+    """the same query in a fresh z3 PROCESS (same version as the Python API): a non-incremental run picks a
+    tactic for the logic actually used, and a run that ignores its own timeout is simply killed"""
+    txt = smt2
+    if "(check-sat)" not in txt:
+        txt += "\n(check-sat)\n"
+    fd, path = tempfile.mkstemp(suffix=".smt2", prefix="pyvc_z3_")
+    try:
+        with os.fdopen(fd, "w") as f:
+            f.write(txt)
+        try:
+            p = subprocess.run([Z3_BIN, "-T:%d" % max(1, int(timeout_s + 0.999)), "-t:%d" % int(timeout_s * 1000),
+                                "smt.arith.solver=2", path],
+                               capture_output=True, text=True, timeout=timeout_s + 5)
+        except subprocess.TimeoutExpired:
+            return "unknown", "z3 process timeout"
+        out = (p.stdout or "").strip().splitlines()
+        res = out[0].strip() if out else "unknown"
+        if res not in ("sat", "unsat", "unknown"):
+            return "unknown", (p.stdout + p.stderr)[:300]
+        return res, ""
+    finally:
+        try:
+            os.unlink(path)
+        except OSError:
+            pass
+
+
+def fresh_check(ctx, neg, budget_ms, smt2=None):
+    """('unsat'|'sat'|'unknown', model or None): decided by a separate z3 process; on 'sat' the model is
+    fetched by an in-process fresh solver (a query the process found satisfiable in time)"""
+    smt2 = smt2 or smt2_for(ctx.pc, neg)
+    res, _ = run_z3cli(smt2, budget_ms / 1000.0)
+    if res != "sat":
+        return res, None
+    s1 = z3.Solver()
+    s1.set("timeout", int(budget_ms * 2))
+    for c in ctx.pc:
+        s1.add(c)
+    s1.add(neg)
+    if guarded_check(s1, budget_ms * 2) == z3.sat:
+        return "sat", extract_model(ctx, s1.model())
+    return "sat", None
+
+
 def run_cvc5(smt2, timeout_s):
     txt = smt2
     for rx, rep in _REWRITES:
@@ -106,18 +155,55 @@ def run_cvc5(smt2, timeout_s):
 import threading as _threading
 
 
+class _Watchdog(object):
+    """ONE polling thread per process (re-created after a fork) instead of a timer thread per check: thread
+    creation maps and unmaps a stack each time, which is what this sandbox is slowest at"""
+
+    def __init__(self):
+        self.lock = _threading.Lock()
+        self.deadline = None
+        self.ctx = None
+        self.pid = None
+
+    def _run(self):
+        while True:
+            time.sleep(0.2)
+            with self.lock:
+                if self.deadline is not None and time.time() > self.deadline:
+                    try:
+                        self.ctx.interrupt()
+                    except Exception:  # noqa
+                        pass
+                    self.deadline = None
+
+    def arm(self, z3ctx, seconds):
+        if self.pid != os.getpid():
+            self.pid = os.getpid()
+            self.lock = _threading.Lock()
+            t = _threading.Thread(target=self._run, daemon=True)
+            t.start()
+        with self.lock:
+            self.ctx = z3ctx
+            self.deadline = time.time() + seconds
+
+    def disarm(self):
+        with self.lock:
+            self.deadline = None
+
+
+_WATCHDOG = _Watchdog()
+
+
 def guarded_check(solver, budget_ms, *extra):
     """solver.check() with a watchdog: z3 sometimes overruns its own timeout inside string /
     arithmetic preprocessing; the watchdog interrupts the context (result: unknown)."""
-    timer = _threading.Timer(budget_ms / 1000.0 * 1.5 + 1.0, solver.ctx.interrupt)
-    timer.daemon = True
-    timer.start()
+    _WATCHDOG.arm(solver.ctx, budget_ms / 1000.0 * 1.5 + 1.0)
     try:
         return solver.check(*extra)
     except z3.Z3Exception:
         return z3.unknown
     finally:
-        timer.cancel()
+        _WATCHDOG.disarm()
 
 
 def forked_fresh_check(ctx, neg, budget_ms):
@@ -216,14 +302,19 @@ def discharge(ctx, name, goal, info=None):
     size = 0
     if status == "unknown":
         # a fresh (non-incremental) z3 picks a tactic for the logic actually used
-        r1, m1 = forked_fresh_check(ctx, neg, min(eng.vc_timeout_ms, int(5000 * ts)))
-        if r1 == "unsat":
+        s1 = z3.Solver()
+        s1.set("timeout", min(eng.vc_timeout_ms, int(5000 * ts)))
+        for c in ctx.pc:
+            s1.add(c)
+        s1.add(neg)
+        r1 = guarded_check(s1, min(eng.vc_timeout_ms, int(5000 * ts)))
+        if r1 == z3.unsat:
             status = "valid"
             backend = "z3-fresh"
-        elif r1 == "sat":
+        elif r1 == z3.sat:
             status = "refuted"
             backend = "z3-fresh"
-            model = m1
+            model = extract_model(ctx, s1.model())
     if status == "unknown":
         # cvc5 next (it decides most string/sequence queries z3 leaves open), then a long z3 run
         smt2 = smt2_for(ctx.pc, neg)
@@ -233,7 +324,7 @@ def discharge(ctx, name, goal, info=None):
             status = "valid"
             backend = "cvc5"
         else:
-            r2, m2 = forked_fresh_check(ctx, neg, eng.vc_timeout_ms)
+            r2, m2 = fresh_check(ctx, neg, eng.vc_timeout_ms, smt2)
             if r2 == "unsat":
                 status = "valid"
                 backend = "z3-fresh"
